@@ -7,8 +7,8 @@ import random
 
 import common as C
 
-CONFIGS_QUICK = [(2, 2, 0), (4, 4, 0), (1, 2, 0), (2, 4, 1)]       # (S, M, TMOVE)
-CONFIGS_THOROUGH = [(S, M, tm) for S in (1, 2, 4, 8) for M in (2, 4, 8) for tm in (0, 1)]
+CONFIGS_QUICK = [(2, 2, 0), (4, 4, 0), (1, 2, 0), (2, 4, 1), (2, 64, 0), (4, 1024, 1)]       # (S, M, TMOVE); large M: the lock array grows with the table
+CONFIGS_THOROUGH = [(S, M, tm) for S in (1, 2, 4, 8) for M in (2, 4, 8, 256, 65536) for tm in (0, 1)]
 
 
 def harness_for(S, M, tm):
@@ -80,14 +80,20 @@ def scenario(rng, S, M, hashmode, nsweeps):
     return lines
 
 
-def run_scenario(exe, lines, timeout=900):
+def run_scenario(exe, lines, timeout=240):
     env = dict(os.environ)
     env["ASAN_OPTIONS"] = "detect_leaks=0:abort_on_error=0:exitcode=77"
     import subprocess
     import time
     t0 = time.time()
-    p = subprocess.run([exe], input="\n".join(lines) + "\n", env=env, stdout=subprocess.PIPE, stderr=subprocess.PIPE,
-                       timeout=timeout, universal_newlines=True, errors="replace")
+    try:
+        p = subprocess.run([exe], input="\n".join(lines) + "\n", env=env, stdout=subprocess.PIPE, stderr=subprocess.PIPE,
+                           timeout=timeout, universal_newlines=True, errors="replace")
+    except subprocess.TimeoutExpired as e:
+        out = e.stdout or ""
+        if isinstance(out, bytes):
+            out = out.decode(errors="replace")
+        return -999, out.splitlines() + ["STDERR: TIMEOUT after %ds (hang / spin on a corrupted table)" % timeout], time.time() - t0
     res = p.stdout.splitlines()
     if p.returncode != 0:
         res.append("STDERR: " + p.stderr[-1200:].replace("\n", " | "))
